@@ -1,4 +1,6 @@
 
+from io import StringIO
+
 from .pair_tabulation import PairTabulation_AbstractBase, Excel_PairTabulation, _r_value_iterator
 
 from ._lammpsWriteEAM import writeSetFL, writeSetFLFinnisSinclair, _writeSetFLPairPots
@@ -276,15 +278,19 @@ class ADP_EAMTabulation(SetFL_EAMTabulation):
     """Write the tabulation to the file object `fp`.
 
     :param fp: File object into which data should be written."""
+    # Assemble setfl body, dipole and quadrupole blocks before touching fp so
+    # that a failed evaluation cannot leave a file without its ADP blocks.
+    outputbuilder = StringIO()
     writeSetFL(
       self.nrho, self.drho, 
       self.nr, self.dr,
       self.eam_potentials,
       self.potentials,
-      out = fp)
+      out = outputbuilder)
 
-    self._write_dipole(fp)
-    self._write_quadrupole(fp)
+    self._write_dipole(outputbuilder)
+    self._write_quadrupole(outputbuilder)
+    fp.write(outputbuilder.getvalue())
 
 
   def _write_dipole(self, fp):
